@@ -18,6 +18,14 @@ fn do_disc(ctx: &mut Ctx, f: &[BigInt]) {
     ctx.emit("disc", &[show_pz(&pf)], ans);
 }
 /// as `disc`, the list handed over as `Polynomial { dat }` without normalisation (what the CLI does)
+/// process level: `rust-number-theory <config>` with to_find = discriminant
+fn do_cli_disc(ctx: &mut Ctx, f: &[BigInt]) {
+    let cfg = format!("to_find = ['discriminant']\n[input]\npolynomials = [{}]\n", toml_list(f));
+    if let Some(out) = run_cli(&cfg) {
+        let ans = if out.starts_with("panic") { out } else { json_field(&out, "discriminant").unwrap_or_else(|| "noanswer".into()) };
+        ctx.emit("cli.disc", &[show_ints(f)], ans);
+    }
+}
 fn do_disc_raw(ctx: &mut Ctx, f: &[BigInt]) {
     let pf = Polynomial { dat: f.to_vec() };
     let ans = run(|| {
@@ -64,6 +72,7 @@ fn do_mul(ctx: &mut Ctx, f: &[BigInt], g: &[BigInt]) {
 
 pub fn replay(ctx: &mut Ctx, f: &[&str]) -> bool {
     match (f[0], f.len()) {
+        ("cli.disc", 2) => do_cli_disc(ctx, &parse_ints(f[1])),
         ("disc", 2) => do_disc(ctx, &parse_ints(f[1])),
         ("disc.raw", 2) => do_disc_raw(ctx, &parse_ints(f[1])),
         ("disc.shift", 3) => do_shift(ctx, &parse_ints(f[1]), &parse_int(f[2])),
@@ -74,7 +83,26 @@ pub fn replay(ctx: &mut Ctx, f: &[&str]) -> bool {
     true
 }
 
+/// process-level cases (only when RNT_BIN is set)
+fn generate_cli(ctx: &mut Ctx) {
+    let iv = |v: &[i64]| v.iter().map(|x| BigInt::from(*x)).collect::<Vec<_>>();
+    for f in [iv(&[3, -2, 1, 2]), iv(&[1, 1, 0]), iv(&[24, 1771, 31, 0, 0]), iv(&[1, 9, 0, 1]), iv(&[5, 1])] {
+        do_cli_disc(ctx, &f);
+    }
+    for _ in 0..ctx.pick(40, 400) {
+        let mut f = crate::c09::rand_poly(ctx, 7, 40);
+        while f.len() < 2 || f.last().map_or(true, |c| c == &BigInt::from(0)) {
+            f.push(BigInt::from(1 + ctx.rng.below(5) as i64));
+        }
+        if ctx.rng.chance(1, 3) {
+            f.push(BigInt::from(0));
+        }
+        do_cli_disc(ctx, &f);
+    }
+}
+
 pub fn generate(ctx: &mut Ctx) {
+    generate_cli(ctx);
     // the unit tests of discriminant.rs
     let iv = |v: &[i64]| v.iter().map(|x| BigInt::from(*x)).collect::<Vec<_>>();
     for f in [iv(&[24, 1771]), iv(&[24, 1771, 31]), iv(&[1, 9, 0, 1]), iv(&[3, -2, 1, 2])] {
